@@ -103,6 +103,19 @@ LeaveBlocks(S) ==
       /\ bkind' = [j \in Subs |-> IF j \in S THEN "own"
                                   ELSE IF bkind[j] = "env" /\ Cardinality(rest(j)) < 2 THEN "own"
                                   ELSE bkind[j]]
+\* both at once (a request that entangles the subsystems in M and hands back those in L): the blocks
+\* that meet M become one block of kind k, then the subsystems in L leave it
+MergeThenLeave(M, k, L) ==
+  LET all == UNION {BlockOf(i) : i \in M}
+      rep == Min(all)
+      b1  == [j \in Subs |-> IF j \in all THEN rep ELSE blk[j]]
+      k1  == [j \in Subs |-> IF j \in all THEN k ELSE bkind[j]]
+      rest(j) == {x \in Subs : alive[x] /\ b1[x] = b1[j]} \ L
+  IN  /\ blk'   = [j \in Subs |-> IF j \in L \/ ~alive[j] THEN j
+                                  ELSE IF rest(j) = {} THEN j ELSE Min(rest(j))]
+      /\ bkind' = [j \in Subs |-> IF j \in L THEN "own"
+                                  ELSE IF k1[j] = "env" /\ Cardinality(rest(j)) < 2 THEN "own"
+                                  ELSE k1[j]]
 \* kind of the block that results from bringing S together: an envelope-level request on two
 \* members that both hold their own state combines the envelope, everything else ends up in a
 \* composite product space
@@ -295,9 +308,11 @@ MeasurePOVM ==
                                 ELSE IF destr THEN EnsProjReset(EnsProj(mid, PM, po), PM, po)
                                 ELSE EnsProj(mid, PM, po))
                /\ alive' = [j \in Subs |-> alive[j] /\ j \notin Range(D) /\ (destr => j \notin Range(PM))]
-               /\ IF D # <<>> \/ pm THEN LeaveBlocks(Range(D) \cup Range(PM))
-                  ELSE IF Len(T) > 1 THEN MergeBlocks(Range(T), MergeKind(Range(T), entry))
-                  ELSE UNCHANGED <<blk, bkind>>
+               /\ LET keep == Range(T) \ Range(D)       \* targets that survive: they are entangled by M_i
+                  IN IF Cardinality(keep) > 1
+                     THEN MergeThenLeave(keep, MergeKind(keep, entry), Range(D) \cup Range(PM))
+                     ELSE IF D # <<>> \/ pm THEN LeaveBlocks(Range(D) \cup Range(PM))
+                     ELSE UNCHANGED <<blk, bkind>>
                /\ UNCHANGED <<cid, ncomp, contr, known>>
                /\ Log([a |-> "povm", en |-> entry, g |-> c, t |-> T, destr |-> destr,
                        out |-> oi - 1, wt |-> wt, pm |-> pm, m |-> PM,
